@@ -338,6 +338,38 @@ fn build_forward_request(req: &ParsedRequest) -> Result<Vec<u8>> {
     Ok(new_request)
 }
 
+/// Verification hook: outcome of the private request parser and rewriter.
+#[cfg(feature = "verif-hooks")]
+pub struct VerifHttpOutcome {
+    pub host: String,
+    pub port: u16,
+    pub is_connect: bool,
+    /// What `build_forward_request` produces for this request (also computed for CONNECT).
+    pub forward: Vec<u8>,
+    /// The bytes kept as "body" (everything that followed the header terminator).
+    pub body: Vec<u8>,
+}
+
+/// Verification hook: run `parse_http_request` + `build_forward_request` on a header block.
+#[cfg(feature = "verif-hooks")]
+pub fn verif_parse_and_rewrite(header: &str, body: Vec<u8>) -> Result<VerifHttpOutcome> {
+    let req = parse_http_request(header, body)?;
+    let forward = build_forward_request(&req)?;
+    Ok(VerifHttpOutcome {
+        host: req.host.clone(),
+        port: req.port,
+        is_connect: req.is_connect,
+        forward,
+        body: req.body.clone(),
+    })
+}
+
+/// Verification hook: the private header-end finder.
+#[cfg(feature = "verif-hooks")]
+pub fn verif_find_header_end(buf: &[u8]) -> Option<usize> {
+    find_header_end(buf)
+}
+
 async fn send_connect_success(stream: &mut TcpStream) -> Result<()> {
     stream
         .write_all(b"HTTP/1.1 200 Connection Established\r\n\r\n")
